@@ -104,12 +104,22 @@ pub fn run() -> (u64, Vec<String>) {
         )* };
     }
     kw!(Where => "where", SelfType => "Self", SelfValue => "self", Await => "await", Async => "async", Move => "move", Dyn => "dyn", Pub => "pub", Super => "super",
-        Unsafe => "unsafe", Const => "const", Fn => "fn", Mut => "mut", Impl => "impl", For => "for", Trait => "trait", Mod => "mod", Auto => "auto", Ref => "ref");
+        Unsafe => "unsafe", Const => "const", Fn => "fn", Mut => "mut", Impl => "impl", For => "for", Trait => "trait", Mod => "mod", Auto => "auto", Ref => "ref", In => "in");
     fact("toks(Underscore)", of(&syn::token::Underscore(sp)) == id("_"));
     fact("Ident::new", of(&syn::Ident::new("cfg_attr", sp)) == id("cfg_attr"));
     fact("Ident == Ident (same text)", syn::Ident::new("abc", sp) == syn::Ident::new("abc", proc_macro2::Span::mixed_site()));
     fact("Ident != Ident (different text)", syn::Ident::new("abc", sp) != syn::Ident::new("abd", sp));
     fact("raw Ident differs from plain", syn::Ident::new_raw("type", sp) != syn::Ident::new("typ", sp) && syn::Ident::new_raw("type", sp).to_string() == "r#type");
+    fact("Ident == \"text\" compares the text", syn::Ident::new("self", sp) == "self" && !(syn::Ident::new("selfish", sp) == "self") && syn::Ident::new("super", sp) != "self");
+    {
+        let v: syn::Visibility = syn::parse_str("pub(in super::a)").unwrap();
+        if let syn::Visibility::Restricted(r) = &v {
+            fact("VisRestricted fields", of(&r.pub_token) == id("pub") && r.in_token.is_some() && r.path.leading_colon.is_none() && r.path.segments.iter().map(|s| s.ident.to_string()).collect::<Vec<_>>() == vec!["super".to_string(), "a".to_string()]);
+            fact("toks(PathSegment) of a plain segment", of(&r.path.segments[1]) == id("a"));
+        } else {
+            fact("pub(in path) parses as Visibility::Restricted", false);
+        }
+    }
     fact("Ident::clone", of(&syn::Ident::new("x", sp).clone()) == id("x"));
     fact("LitBool::new(false)", of(&syn::LitBool::new(false, sp)) == id("false"));
     fact("LitBool::new(true)", of(&syn::LitBool::new(true, sp)) == id("true"));
